@@ -84,7 +84,7 @@ def gen_structured(rng, n, tick_share=0.0):
             if rng.random() < 0.25:
                 ths.append(rev(fault=rng.choice([-1, -1, -1, 0, 1, 2])))
             else:
-                ths.append(act(rng.choice(clients), rng.randrange(3), fault=rng.choice([-1, -1, -1] + list(range(9)))))
+                ths.append(act(rng.choice(clients), rng.randrange(3), fault=rng.choice([-1, -1, -1] + list(range(11)))))
         with_tick = rng.random() < tick_share
         if with_tick:
             ths.insert(rng.randrange(len(ths) + 1), dict(TICK))
@@ -133,24 +133,49 @@ def gen_malformed(rng, n):
     return out
 
 
-def exhaustive(rng, claim, thorough):
+def expand_admission(s, n_core):
+    """schedule over the n_core non-admission actions of each caller -> schedule of the code with the admission marker:
+    the SetNX sits right before a caller's quota scan (its action #1), the Delete right after its last action.
+    Used for callers with DIFFERENT listen clients, whose markers are distinct keys (those actions commute with
+    everything the other caller does); same-client pairs and random full interleavings are generated separately."""
+    cnt, out = {}, []
+    for c in s:
+        k = cnt.get(c, 0)
+        cnt[c] = k + 1
+        out.append(c)
+        if k == 1 or k == n_core - 1:
+            out.append(c)
+    return out
+
+
+def exhaustive(rng, claim, admit, thorough):
     """2 concurrent activators: every interleaving of their storage actions (thorough), every single-fault position"""
-    n_act = 9 if claim else 8
+    n_core = 9 if claim else 8
+    n_act = n_core + (2 if admit else 0)
     out = []
-    ms = list(merges(n_act, n_act))
+    ms = list(merges(n_core, n_core))
     if not thorough:
         ms = rng.sample(ms, 250)
     for s in ms:
-        out.append(case([act(101, 0), act(102, 1)], s))
+        out.append(case([act(101, 0), act(102, 1)], expand_admission(s, n_core) if admit else s))
     same = ms if thorough else ms[:60]
     for s in same[::4]:
-        out.append(case([act(101, 0), act(101, 2)], s, qmax=rng.choice([1, 2, 50])))
+        out.append(case([act(101, 0), act(101, 2)], expand_admission(s, n_core) if admit else s, qmax=rng.choice([1, 2, 50])))
+    if admit:
+        # same listen client: every interleaving of the two callers' actions up to and including the claim
+        # (Get, Admit, Quota, Claim), with quota 1/2/50, and of the complete runs at random
+        for s in merges(4, 4):
+            for q in (1, 2, 50):
+                out.append(case([act(101, 0), act(101, 2)], s, qmax=q))
+        for _ in range(20000 if thorough else 200):
+            out.append(case([act(101, 0), act(rng.choice([101, 101, 102]), 1)], rand_merge(rng, [n_act + 2, n_act + 2]),
+                            qmax=rng.choice([1, 2, 50])))
     # all single-fault positions of caller 0 (and of both), random interleavings with the rollback actions included
     per = 1500 if thorough else 12
     for k in range(n_act + 1):
         for _ in range(per):
             f1 = rng.choice([-1, -1, k, rng.randrange(n_act)])
-            out.append(case([act(101, 0, fault=k), act(rng.choice([101, 102]), 1, fault=f1)], rand_merge(rng, [14, 14])))
+            out.append(case([act(101, 0, fault=k), act(rng.choice([101, 102]), 1, fault=f1)], rand_merge(rng, [16, 16])))
     # activation against revocation: EVERY interleaving of one activator and one revoker, in both tiers
     # (mutual exclusion of a successful revocation and a successful activation; revoked-before-Claim never creates)
     n_rev = 4 if claim else 3
@@ -158,11 +183,12 @@ def exhaustive(rng, claim, thorough):
     for s in mr:
         out.append(case([act(101, 0), rev()], s))
     # two activators + one revoker: every interleaving of the actions up to and including each caller's claim
-    # (3 + 3 + n_rev actions; everything after is drained in caller order), thorough: all, quick: a sample;
+    # (everything after is drained in caller order), thorough: all, quick: a sample;
     # plus random full interleavings of the three complete runs
-    pre3 = list(merges3(3, 3, n_rev))
+    n_pre = 3 + (1 if admit else 0)
+    pre3 = merges3(n_pre, n_pre, n_rev)
     if not thorough:
-        pre3 = rng.sample(pre3, 300)
+        pre3 = [rand_merge(rng, [n_pre, n_pre, n_rev]) for _ in range(300)]
     for s in pre3:
         out.append(case([act(101, 0), act(rng.choice([101, 102]), 1), rev()], s))
     for _ in range(20000 if thorough else 150):
@@ -175,10 +201,10 @@ def exhaustive(rng, claim, thorough):
     return out
 
 
-def tick_cases(rng, n, claim):
+def tick_cases(rng, n, claim, admit):
     """the activation period ends at every position of one activator's run, with a second caller around"""
     out = []
-    n_act = 9 if claim else 8
+    n_act = (9 if claim else 8) + (2 if admit else 0)
     pos = list(range(n_act + 1))
     for j in range(n):
         p = pos[j % len(pos)]
@@ -212,7 +238,8 @@ def case_value(c, o):
     return [bool(o["variant_claim"]), bool(o["variant_cleanup"]), c["qmax"], [list(p) for p in c["pre"]], STATES.index(c["state"]),
             c["target"], c["taddr"], ths, list(o["sched"]), obs,
             [[r[0], r[1], r[2], r[3] + 1, r[4] + 1] for r in o["mains"]], list(o["glob"]), [list(e) for e in o["cidx"]],
-            rec(o["bycode"]), rec(o["byid"]), bool(o["claimset"]), bool(o["ticked"])]
+            rec(o["bycode"]), rec(o["byid"]), bool(o["claimset"]), bool(o["ticked"]), bool(o.get("variant_admit")),
+            int(o.get("admitkeys", 0))]
 
 
 def overlapping(o):
@@ -233,7 +260,7 @@ def run(ctx, only_cases=None):
     except vlib.Broken as b:
         broken = b
     probe = vlib.run_harness(binary, [WITNESSES[0]])[0]
-    claim, cleanup = bool(probe["variant_claim"]), bool(probe["variant_cleanup"])
+    claim, cleanup, admit = bool(probe["variant_claim"]), bool(probe["variant_cleanup"]), bool(probe.get("variant_admit"))
     if only_cases is not None:
         cases = only_cases
     else:
@@ -245,8 +272,8 @@ def run(ctx, only_cases=None):
         cases += [dict(w) for w in WITNESSES]
         cases += gen_structured(ctx.rng, 6000 if thorough else 260)
         cases += gen_malformed(ctx.rng, 600 if thorough else 40)
-        cases += exhaustive(ctx.rng, claim, thorough)
-        cases += tick_cases(ctx.rng, 120 if thorough else 20, claim)
+        cases += exhaustive(ctx.rng, claim, admit, thorough)
+        cases += tick_cases(ctx.rng, 120 if thorough else 20, claim, admit)
         cases += gen_structured(ctx.rng, 80 if thorough else 8, tick_share=1.0)
     outs = run_parallel(binary, cases, par=8)
     # ---- the property predicate evaluated by the harness on the real code's outputs
@@ -320,7 +347,7 @@ def run(ctx, only_cases=None):
                 "trace and final storage contents. non-trivial = at least two callers whose storage actions overlap in the executed schedule and "
                 "at least one successful activation; distinct by (callers, executed schedule, initial state, quota).",
         "samples": samples,
-        "variant_of_the_tree": {"atomic_claim": claim, "create_cleanup": cleanup},
+        "variant_of_the_tree": {"atomic_claim": claim, "create_cleanup": cleanup, "quota_admission_marker": admit},
         "model_vs_impl_cases": len(terms), "model_vs_impl_mismatches": len(mism), "impl_property_failures": nviol,
         "input_distribution": stats, "generated_file_changed": gen_changed,
     })
